@@ -390,8 +390,19 @@ class Grid(object):
                       + f" data has {ncols}, but expects {self.ncols}."
             raise ValueError(errmess)
 
-        self._data = np.clip(_value, self.mindata,
-                             self.maxdata).astype(self.dtype)
+        self._data = self._clipdata(_value)
+
+    def _clipdata(self, data):
+        """ Clip data to [mindata, maxdata] and convert to the grid dtype.
+        Infinite bounds are skipped: clipping integer data against +-inf
+        converts it to float64 and corrupts 64 bits integers above 2^53.
+        """
+        mini = self.mindata if np.isfinite(self.mindata) else None
+        maxi = self.maxdata if np.isfinite(self.maxdata) else None
+        if mini is not None or maxi is not None:
+            data = np.clip(data, mini, maxi)
+
+        return data.astype(self.dtype)
 
     @property
     def nodata(self):
@@ -499,8 +510,7 @@ class Grid(object):
                       + f" expecting {nval}."
             raise ValueError(errmess)
 
-        self._data = np.clip(data.reshape((self.nrows, self.ncols)),
-                             self.mindata, self.maxdata).astype(self.dtype)
+        self._data = self._clipdata(data.reshape((self.nrows, self.ncols)))
 
     def to_dict(self):
         """ Export grid metadata to json """
